@@ -28,6 +28,8 @@ pub fn edit_tree(rng: &mut Rng, t: &T) -> Option<(T, &'static str)> {
   }
   let tweak = |s: &String, rng: &mut Rng| -> String { let mut x = s.clone(); if x.is_empty() || rng.chance(2) { x.push('q'); } else { x.pop(); x.push('Z'); } x };
   match t {
+    // the same bytes through the other constructor (string-backed vs buffer-backed RawSource: `is_buffer()` differs)
+    T::Raw(s) if rng.chance(4) => Some((T::RawB(s.clone().into_bytes()), "raw-variant")),
     T::Raw(s) => Some((T::Raw(tweak(s, rng)), "leaf-text")),
     T::RawStr(s) => Some((T::RawStr(tweak(s, rng)), "leaf-text")),
     // a different invalid byte in the same place: the lossy text stays the same, the buffer does not (seed S94)
@@ -53,6 +55,7 @@ pub fn edit_tree(rng: &mut Rng, t: &T) -> Option<(T, &'static str)> {
           _ => { x.debug_id = Some(match &x.debug_id { Some(f) => format!("{f}2"), None => "dbg".into() }); (x, "map-debugid") }
         }
       };
+      if rng.chance(8) { return Some((T::Sms { text: text.clone(), name: tweak(name, rng), map: map.clone(), orig: orig.clone(), inner: inner.clone(), remove: *remove }, "sms-name")) }
       match rng.below(5) {
         0 => Some((mk(&tweak(text, rng), map, orig, inner, *remove), "leaf-text")),
         1 | 2 => { let (m2, k) = edit_map(map, rng); Some((mk(text, &m2, orig, inner, *remove), k)) }
@@ -201,7 +204,11 @@ fn c20_oracle(c: &Case, outs: &[Out]) -> Vec<Finding> {
   let eq = matches!(get(0, &Op::Eq(1)), Some(Out::Num(1)));
   let obs_a: Vec<&Out> = [Op::Src, Op::Buffer, Op::Map(true), Op::Map(false)].iter().filter_map(|op| get(0, op)).collect();
   let obs_b: Vec<&Out> = [Op::Src, Op::Buffer, Op::Map(true), Op::Map(false)].iter().filter_map(|op| get(1, op)).collect();
-  let must_differ = c.note.starts_with("edit") || obs_a != obs_b;
+  // edits that change no observer (the name of a SourceMapSource without inner map is deliberately not hashed; the same bytes through
+  // the string or the buffer constructor of RawSource) need not change the hash
+  let exempt = c.note.ends_with("sms-name") || c.note.ends_with("raw-variant");
+  // (the quantifier of C20 excludes the name of a SourceMapSource even where it changes map(): with an inner map)
+  let must_differ = !c.note.ends_with("sms-name") && ((c.note.starts_with("edit") && !exempt) || obs_a != obs_b);
   if must_differ {
     if hashes[0] == hashes[1] { v.push(finding("hash-separates", format!("{}: the two trees feed the hasher identically ({})", c.note, if obs_a != obs_b { "source()/buffer()/map() differ" } else { "listed edit" }))); }
     if eq { v.push(finding("unequal", format!("{}: the two trees compare equal", c.note))); }
